@@ -4,7 +4,7 @@
 (* (edges, faces, cells: sequences of index sequences).  Every operation is a pure function *)
 (* on this state: nothing is shared between meshes, so no operation on one mesh can change  *)
 (* another, and every transform maps every vertex exactly once.                             *)
-EXTENDS Rat, FiniteSets, TLC
+EXTENDS Rotations, FiniteSets, TLC
 
 Pt(x, y, z) == <<R(x), R(y), R(z)>>
 Init0 == [val |-> <<>>, el |-> <<>>]
@@ -52,16 +52,4 @@ NormalizedBox(pts, centred) ==
                   /\ MaxSpan(pts) = R(2)                                   \* largest extent 2
   ELSE /\ BMin(pts) = <<R(0), R(0), R(0)>> /\ MaxSpan(pts) = R(1)          \* anchored at 0, largest extent 1
 
-(* rotations with exact entries: quarter turns about the axes and a 3-4-5 turn about z, each with its inverse *)
-Q(a, b) == <<a, b>>
-RotTable ==
-  << << <<R(1), R(0), R(0)>>, <<R(0), R(0), R(-1)>>, <<R(0), R(1), R(0)>> >>,       \* 1: +90 about x
-     << <<R(1), R(0), R(0)>>, <<R(0), R(0), R(1)>>, <<R(0), R(-1), R(0)>> >>,       \* 2: -90 about x
-     << <<R(0), R(0), R(1)>>, <<R(0), R(1), R(0)>>, <<R(-1), R(0), R(0)>> >>,       \* 3: +90 about y
-     << <<R(0), R(0), R(-1)>>, <<R(0), R(1), R(0)>>, <<R(1), R(0), R(0)>> >>,       \* 4: -90 about y
-     << <<R(0), R(-1), R(0)>>, <<R(1), R(0), R(0)>>, <<R(0), R(0), R(1)>> >>,       \* 5: +90 about z
-     << <<R(0), R(1), R(0)>>, <<R(-1), R(0), R(0)>>, <<R(0), R(0), R(1)>> >>,       \* 6: -90 about z
-     << <<Q(3, 5), Q(-4, 5), R(0)>>, <<Q(4, 5), Q(3, 5), R(0)>>, <<R(0), R(0), R(1)>> >>,   \* 7: atan(4/3) about z
-     << <<Q(3, 5), Q(4, 5), R(0)>>, <<Q(-4, 5), Q(3, 5), R(0)>>, <<R(0), R(0), R(1)>> >> >> \* 8: its inverse
-RotInv(k) == IF k % 2 = 1 THEN k + 1 ELSE k - 1
 =============================================================================
